@@ -15,6 +15,7 @@ CONSTANTS
   DupWrite = FALSE
   WriterGuard = TRUE
   Defensive = FALSE
+  EnvOn = TRUE
 SPECIFICATION Spec
 INVARIANTS TypeOK AtMostOneReply ExactlyOneWhenFinished OneLeaderPerGeneration FollowersNeverDone
   TimedOutGenerationIsTombstone FailureIsPrivate InternalSkipsJoin RegroupBound Quiescent 
